@@ -45,6 +45,11 @@ pub fn decode(ctx: &Ctx, tape: &[u32], disk: Option<DiskCfg>, subqueries: bool) 
     let query = if !keyed.is_empty() && t.chance(1, 5) {
         let td = keyed[t.pick(keyed.len())];
         key_range_query(&mut t, td).unwrap()
+    } else if db.schema.iter().any(|td| td.cols.len() >= 2) && t.chance(1, 12) {
+        // sorting the output of a sorted derived table again
+        let tds: Vec<&TableDef> = db.schema.iter().filter(|td| td.cols.len() >= 2).collect();
+        let td = tds[t.pick(tds.len())];
+        reorder_query(&mut t, td).unwrap()
     } else {
         let mut g = Gen { t: &mut t, cfg: cfg.clone(), schema: &db.schema, alias_no: 0 };
         g.query(0)
